@@ -101,6 +101,12 @@ func transform(f *os.File, opts signers.SignOpts) (signers.Transformer, error) {
 }
 
 func (t *pgpTransformer) GetReader() (io.Reader, error) {
+	if f, ok := t.stream.(*os.File); ok {
+		if st, err := f.Stat(); err == nil && st.Mode().IsRegular() {
+			// each attempt gets its own positioned reader, see fileProducer.GetReader
+			return io.NewSectionReader(f, 0, st.Size()), nil
+		}
+	}
 	if _, err := t.stream.Seek(0, 0); err != nil {
 		return nil, err
 	}
